@@ -152,9 +152,9 @@ Proof.
   rewrite (H f (or_introl eq_refl)). rewrite IH; [reflexivity|]. intros x Hx. apply H. right. exact Hx.
 Qed.
 
-Lemma fill_map (g : fdecl -> value) present l :
+Lemma fill_map err (g : fdecl -> value) present l :
   (forall f, In f l -> assoc (f_name f) present = Some (g f)) ->
-  fill l present = Ok (vf_of (map (fun f => (f_name f, g f)) l)).
+  fill err l present = Ok (vf_of (map (fun f => (f_name f, g f)) l)).
 Proof.
   induction l as [|f r IH]; simpl; intros H; [reflexivity|].
   rewrite (H f (or_introl eq_refl)). rewrite IH; [reflexivity|]. intros x Hx. apply H. right. exact Hx.
@@ -182,12 +182,12 @@ Proof.
       * intros [[<-|H1] H2]; [congruence|split; assumption].
 Qed.
 
-Lemma fill_keys l present vs : fill l present = Ok vs -> vf_keys vs = map f_name l.
+Lemma fill_keys err l present vs : fill err l present = Ok vs -> vf_keys vs = map f_name l.
 Proof.
   revert vs. induction l as [|f r IH]; simpl; intros vs H.
   - injection H as <-. reflexivity.
   - destruct (match assoc (f_name f) present with Some v => Some v | None => f_default f end); [|discriminate].
-    destruct (fill r present) as [w|]; [|discriminate]. injection H as <-. simpl. f_equal. apply IH. reflexivity.
+    destruct (fill err r present) as [w|]; [|discriminate]. injection H as <-. simpl. f_equal. apply IH. reflexivity.
 Qed.
 
 Lemma find_ext' {A} (p q : A -> bool) l : (forall x, p x = q x) -> find p l = find q l.
@@ -217,6 +217,10 @@ Section Main.
   Variable drule : droprule.
   Variable dis_absent : bool.
   Variable child_drop : option bool.
+  Variable fwd : fwdrule.
+  Variable list_item_drop dict_value_drop dc_preset : option bool.
+  Variable item_save : bool.
+  Variable construct_err locate_err : string.
   Variable h : hier.
   Variable modname : string.
   Variable enum : string -> list string.
@@ -224,6 +228,8 @@ Section Main.
   Hypothesis Hskey : skey = KAllCount.
   Hypothesis Hcset : cset = FAll.
   Hypothesis Hrset : rset = ReqAll.
+  Hypothesis Hfwd : fwd = FwdDataclassNotNone.     (* drop_extra_fields reaches the decoder of a dataclass-typed field *)
+  Hypothesis Hcerr : construct_err = "RuntimeError".
   Hypothesis Hcd : child_drop = Some false.       (* the chosen subclass is entered with drop_extra_fields=False *)
   Hypothesis Hcmp : cmp = CGe.
   Hypothesis Hpk : pk = PickFirst.
@@ -231,12 +237,12 @@ Section Main.
   (* the enumeration lists exactly the classes below, in ANY order (repetitions allowed) *)
   Hypothesis Henum : forall b n, In n (enum b) <-> In n (map c_name (descendants h b)).
 
-  Notation fser := (from_ser TYPE_KEY skey cmp cset rset pk drule dis_absent child_drop h modname enum).
-  Notation dkvs := (decode_kvs TYPE_KEY skey cmp cset rset pk drule dis_absent child_drop h modname enum).
-  Notation ditems := (decode_items TYPE_KEY skey cmp cset rset pk drule dis_absent child_drop h modname enum).
-  Notation bld := (build skey cmp cset rset pk drule dis_absent child_drop h enum).
-  Notation tser := (to_ser TYPE_KEY modname).
-  Notation fldser := (fields_ser TYPE_KEY modname).
+  Notation fser := (from_ser TYPE_KEY skey cmp cset rset pk drule dis_absent child_drop fwd list_item_drop dict_value_drop dc_preset construct_err locate_err h modname enum).
+  Notation dkvs := (decode_kvs TYPE_KEY skey cmp cset rset pk drule dis_absent child_drop fwd list_item_drop dict_value_drop dc_preset construct_err locate_err h modname enum).
+  Notation ditems := (decode_items TYPE_KEY skey cmp cset rset pk drule dis_absent child_drop fwd list_item_drop dict_value_drop dc_preset construct_err locate_err h modname enum).
+  Notation bld := (build skey cmp cset rset pk drule dis_absent child_drop construct_err h enum).
+  Notation tser := (to_ser TYPE_KEY item_save modname).
+  Notation fldser := (fields_ser TYPE_KEY item_save modname).
   Notation chs := (choose skey cmp cset pk h enum).
   Notation cands := (candidates h enum).
 
@@ -362,13 +368,13 @@ Section Main.
   Definition decode_one (t : fty) (drop : bool) (s : ser) : res value :=
     match t with
     | TInt => decode_int s
-    | TDc b => fser b (Some drop) s
+    | TDc b => fser b (fwd_drop fwd dc_preset drop) s
     | TList b => match s with
-                 | SList items => match seq_items (ditems b items) with Ok vs => Ok (VList vs) | Err e => Err e end
+                 | SList items => match seq_items (ditems b (unforwarded dc_preset list_item_drop) items) with Ok vs => Ok (VList vs) | Err e => Err e end
                  | _ => Err (Raise "TypeError")
                  end
     | TDict b => match s with
-                 | SMap items => match seq_items (ditems b items) with Ok vs => Ok (VDict vs) | Err e => Err e end
+                 | SMap items => match seq_items (ditems b (unforwarded dc_preset dict_value_drop) items) with Ok vs => Ok (VDict vs) | Err e => Err e end
                  | _ => Err (Raise "AttributeError")
                  end
     end.
@@ -421,7 +427,7 @@ Section Main.
     fser cls dropo (SMap kvs) =
     match locate h modname t with
     | Some live => bld (fun ft drop => dkvs ft drop kvs) (keys_of kvs) live dropo
-    | None => Err (Raise "ImportError")
+    | None => Err (Raise locate_err)
     end.
   Proof. intros H1. cbn [from_ser]. rewrite H1. reflexivity. Qed.
 
@@ -455,20 +461,20 @@ Section Main.
     pose proof (find_none _ _ E f Hf) as X. cbv beta in X. rewrite Hn, String.eqb_refl in X. discriminate.
   Qed.
 
-  Lemma construct_inv c present v : construct c present = Ok v ->
+  Lemma construct_inv c present v : construct construct_err c present = Ok v ->
     exists vs, v = VObj (c_name c) vs /\ vf_keys vs = field_names c.
   Proof.
-    unfold construct. destruct (fill (c_fields c) present) as [vs|] eqn:E; [|discriminate].
+    unfold construct. destruct (fill construct_err (c_fields c) present) as [vs|] eqn:E; [|discriminate].
     intros H. injection H as <-. exists vs. split; [reflexivity|]. eapply fill_keys, E.
   Qed.
 
   Lemma build_inv dec keys c dropo v : bld dec keys c dropo = Ok v ->
     exists present, collect (c_fields c) (dec (ftype_of c) (model_drop (c_name c) dropo)) = Ok present /\
-    ( ((extras_of c keys = [] \/ model_drop (c_name c) dropo = true) /\ construct c present = Ok v)
+    ( ((extras_of c keys = [] \/ model_drop (c_name c) dropo = true) /\ construct construct_err c present = Ok v)
       \/ (extras_of c keys <> [] /\ model_drop (c_name c) dropo = false /\ exists child present2,
             chs (c_name c) (req_names rset c (extras_of c keys) present) = Some child /\
             collect (c_fields child) (dec (ftype_of child) (model_drop (c_name child) child_drop)) = Ok present2 /\
-            construct child present2 = Ok v) ).
+            construct construct_err child present2 = Ok v) ).
   Proof.
     unfold build.
     destruct (collect (c_fields c) (dec (ftype_of c) (model_drop (c_name c) dropo))) as [present|] eqn:Ec; [|discriminate].
@@ -490,7 +496,7 @@ Section Main.
     chs (c_name c) (req_names rset c (extras_of c keys) present) = Some child ->
     collect (c_fields child) (dec (ftype_of child) (model_drop (c_name child) child_drop)) = Ok p2 ->
     extras_of child keys = [] ->
-    bld dec keys c dropo = construct child p2.
+    bld dec keys c dropo = construct construct_err child p2.
   Proof.
     intros Hc He Hd Hch Hc2 He2. unfold build. rewrite Hc, Hd.
     destruct (extras_of c keys) as [|e es]; [congruence|]. rewrite Hch, Hc2, He2. reflexivity.
@@ -499,7 +505,7 @@ Section Main.
   Lemma build_self dec keys c dropo present :
     collect (c_fields c) (dec (ftype_of c) (model_drop (c_name c) dropo)) = Ok present ->
     (extras_of c keys = [] \/ model_drop (c_name c) dropo = true) ->
-    bld dec keys c dropo = construct c present.
+    bld dec keys c dropo = construct construct_err c present.
   Proof.
     intros Hc H. unfold build. rewrite Hc.
     destruct (extras_of c keys) as [|e es]; [reflexivity|]. destruct H as [H|H]; [discriminate|]. rewrite H. reflexivity.
@@ -593,10 +599,10 @@ Section Main.
   (* if every field of c decodes to the value fs holds for it, the class is rebuilt with exactly fs *)
   Lemma collect_construct_full c fs D : In c h -> vf_keys fs = field_names c ->
     (forall f, In f (c_fields c) -> assoc (f_name f) D = Some (Ok (getd (f_name f) fs))) ->
-    exists present, collect (c_fields c) D = Ok present /\ construct c present = Ok (VObj (c_name c) fs).
+    exists present, collect (c_fields c) D = Ok present /\ construct construct_err c present = Ok (VObj (c_name c) fs).
   Proof.
     intros Hin Hk HD. eexists. split; [apply (collect_map (fun f => getd (f_name f) fs)), HD|].
-    unfold construct. rewrite (fill_map (fun f => getd (f_name f) fs)).
+    unfold construct. rewrite (fill_map construct_err (fun f => getd (f_name f) fs)).
     - rewrite (map_fields_names (fun n => getd n fs)).
       rewrite (rebuild_list fs (field_names c) Hk (wf_fields_nodup c Hin)), vf_of_list. reflexivity.
     - intros f Hf. rewrite (map_fields_names (fun n => getd n fs)).
@@ -685,7 +691,7 @@ Section Main.
     assert (Hself : extras_of d (field_names d) = []) by (apply extras_nil_iff, has_all_self).
     assert (Hfull : exists present,
                collect (c_fields d) (dkvs (ftype_of d) false (fldser false fs)) = Ok present
-               /\ construct d present = Ok (VObj (c_name d) fs)).
+               /\ construct construct_err d present = Ok (VObj (c_name d) fs)).
     { apply collect_construct_full; [exact Hd|exact Hk|]. intros f Hf.
       apply (entry_of_instance d false false fs f Hd Hf) with (pre := SNil).
       - rewrite Hk. apply in_map, Hf.
@@ -783,11 +789,17 @@ Section Main.
         destruct (ftype_of d k) as [t|] eqn:Et; [|discriminate]. exists t. split; [reflexivity|].
         destruct t as [|b|b|b]; destruct v as [z|c fs|items|items]; try discriminate.
         * reflexivity.
-        * cbn [decode_one]. apply IHv; [exact Hhead|reflexivity].
+        * cbn [decode_one].
+          replace (fwd_drop fwd dc_preset false) with (Some false) by (unfold fwd_drop; rewrite Hfwd; reflexivity).
+          apply IHv; [exact Hhead|reflexivity].
         * destruct items; [reflexivity|discriminate].
         * destruct items; [reflexivity|discriminate].
       + eapply IHr; eauto.
   Qed.
+
+  Theorem hid_thm v base dropo :
+    hid h base v = true -> model_drop base dropo = false -> fser base dropo (tser false v) = Ok v.
+  Proof. apply (proj1 hid_mutual). Qed.
 
   (* ---------- C14_drop on flat data: exactly the base, unknown keys dropped ---------- *)
   Definition int_entry (kvs : sfields) (k : string) : option value :=
@@ -834,9 +846,9 @@ Section Main.
 
   Lemma fill_spec kvs present l : int_kvs kvs = true ->
     (forall f, In f l -> assoc (f_name f) present = int_entry kvs (f_name f)) ->
-    fill l present = match spec_fill l kvs with Some vs => Ok vs | None => Err (Raise "RuntimeError") end.
+    fill construct_err l present = match spec_fill l kvs with Some vs => Ok vs | None => Err (Raise "RuntimeError") end.
   Proof.
-    intros Hi. induction l as [|f r IH]; simpl; intros H; [reflexivity|].
+    rewrite Hcerr. intros Hi. induction l as [|f r IH]; simpl; intros H; [reflexivity|].
     rewrite (H f (or_introl eq_refl)). rewrite (IH (fun x Hx => H x (or_intror Hx))).
     unfold int_entry. destruct (sf_get (f_name f) kvs) as [s|] eqn:E.
     - destruct (int_get kvs _ s Hi E) as [z ->]. destruct (spec_fill r kvs); reflexivity.
@@ -923,6 +935,10 @@ Section Main.
         * destruct items; [reflexivity|discriminate].
       + eapply IHr; eauto.
   Qed.
+
+  Theorem dc_types_thm v b dropo :
+    wt h v = true -> dc_only v = true -> fser b dropo (tser true v) = Ok v.
+  Proof. intros H1 H2. apply (proj1 dc_types_mutual); assumption. Qed.
 End Main.
 
 From Coq Require Import Permutation.
@@ -952,6 +968,30 @@ Proof. reflexivity. Qed.
 (* the chosen subclass is entered with drop_extra_fields=False: the flag travels down the recursion *)
 Lemma bridge_child_drop : CHILD_DROP_GEN = Some false.
 Proof. reflexivity. Qed.
+(* ... and into the decoder of every dataclass-typed field (decode_field) *)
+Lemma bridge_field_forward : FIELD_FORWARD_GEN = FwdDataclassNotNone.
+Proof. reflexivity. Qed.
+(* cls(..) failing is reported as the RuntimeError the spec names; an unresolvable type entry as an ImportError *)
+Lemma bridge_construct_error : CONSTRUCT_ERROR_GEN = "RuntimeError".
+Proof. reflexivity. Qed.
+Lemma bridge_locate_error : LOCATE_ERROR_GEN = "ImportError".
+Proof. reflexivity. Qed.
+(* items of List[..] / Dict[str, ..] are decoded without drop_extra_fields (the item class's own default applies) and
+   encoded without type entries: the extent of C14_dc_types_refuted / dc_only *)
+Lemma bridge_item_flags :
+  LIST_ITEM_DROP_GEN = None /\ DICT_VALUE_DROP_GEN = None /\ DC_DECODER_PRESET_GEN = None /\ ITEM_SAVE_TYPES_GEN = false.
+Proof. repeat split; reflexivity. Qed.
+(* get_decoding_fn: a registered decoder (cls.from_dict of a Serializable, _decode_int) is preferred, a dataclass is decoded
+   by from_dict before any container test, Dict[..] and List[..] reach decode_dict / decode_list *)
+Definition dispatch_ok (l : list dkind) : bool :=
+  match l with
+  | KRegistered :: KDataclass :: r =>
+      existsb (fun k => match k with KDict => true | _ => false end) r
+      && existsb (fun k => match k with KList => true | _ => false end) r
+  | _ => false
+  end.
+Lemma bridge_dispatch : dispatch_ok DECODE_DISPATCH_GEN = true.
+Proof. reflexivity. Qed.
 (* drop_extra_fields defaults to "not decode_into_subclasses"; an explicit value is used as given *)
 Lemma bridge_drop_rule h base :
   eff_drop_gen h base None = negb (dis_of_gen h base) /\ forall b, eff_drop_gen h base (Some b) = b.
@@ -966,7 +1006,7 @@ Lemma result_admissible_gen h modname enum base dropo kvs v :
                  /\ admissible h base (sf_keys kvs) (eff_drop_gen h base dropo) R = true.
 Proof.
   intros Hwf He. unfold from_ser_gen, eff_drop_gen.
-  apply result_admissible; auto using bridge_sort_key, bridge_superset_cmp, bridge_pick, bridge_cand_fields, bridge_required, bridge_child_drop.
+  apply result_admissible; auto using bridge_sort_key, bridge_superset_cmp, bridge_pick, bridge_cand_fields, bridge_required, bridge_child_drop, bridge_field_forward, bridge_construct_error.
 Qed.
 
 Lemma superset_gen h modname enum base dropo kvs R fs B :
@@ -998,7 +1038,7 @@ Lemma identified_gen h modname enum base dropo d fs :
   from_ser_gen h modname enum base dropo (to_ser_gen modname false (VObj (c_name d) fs)) = Ok (VObj (c_name d) fs).
 Proof.
   intros Hwf He. unfold from_ser_gen, to_ser_gen, eff_drop_gen.
-  apply identified_thm; auto using bridge_sort_key, bridge_superset_cmp, bridge_pick, bridge_cand_fields, bridge_required, bridge_child_drop.
+  apply identified_thm; auto using bridge_sort_key, bridge_superset_cmp, bridge_pick, bridge_cand_fields, bridge_required, bridge_child_drop, bridge_field_forward, bridge_construct_error.
 Qed.
 
 Lemma identified_nested_gen h modname enum base dropo v :
@@ -1006,10 +1046,9 @@ Lemma identified_nested_gen h modname enum base dropo v :
   hid h base v = true -> eff_drop_gen h base dropo = false ->
   from_ser_gen h modname enum base dropo (to_ser_gen modname false v) = Ok v.
 Proof.
-  intros Hwf He Hh Hd. unfold from_ser_gen, to_ser_gen.
-  exact (proj1 (hid_mutual DC_TYPE_KEY SORT_KEY_GEN SUPERSET_CMP_GEN CAND_FIELDS_GEN REQUIRED_GEN PICK_GEN DROP_RULE_GEN
-                  DIS_ABSENT_GEN CHILD_DROP_GEN h modname enum bridge_sort_key bridge_cand_fields bridge_required
-                  bridge_child_drop bridge_superset_cmp bridge_pick Hwf He) v base dropo Hh Hd).
+  intros Hwf He. unfold from_ser_gen, to_ser_gen, eff_drop_gen.
+  apply hid_thm; auto using bridge_sort_key, bridge_superset_cmp, bridge_pick, bridge_cand_fields, bridge_required,
+    bridge_child_drop, bridge_field_forward.
 Qed.
 
 Lemma drop_exact_base_gen h modname enum base dropo kvs v :
@@ -1031,9 +1070,7 @@ Lemma dc_types_partial_gen h modname enum base dropo v :
   wf_hier_gen h = true -> wt h v = true -> dc_only v = true ->
   from_ser_gen h modname enum base dropo (to_ser_gen modname true v) = Ok v.
 Proof.
-  intros Hwf Hwt Hdc. unfold from_ser_gen, to_ser_gen.
-  exact (proj1 (dc_types_mutual DC_TYPE_KEY SORT_KEY_GEN SUPERSET_CMP_GEN CAND_FIELDS_GEN REQUIRED_GEN PICK_GEN DROP_RULE_GEN DIS_ABSENT_GEN
-                  CHILD_DROP_GEN h modname enum Hwf) v Hwt Hdc base dropo).
+  intros Hwf. unfold from_ser_gen, to_ser_gen. apply dc_types_thm; auto.
 Qed.
 
 (* the full-strength claim ("at every nesting level") is false of the faithful model: a dataclass inside a List[..]
